@@ -14,22 +14,24 @@ pub struct FpRule {
     pub rhs: &'static str,
     /// conditions: (slot, var): slot must not be free in var
     pub not_free: &'static [(&'static str, &'static str)],
+    /// additional disjunctive condition (the rule is model-valid with or without it): slot free in none of .. OR ..
+    pub or_free: &'static [(&'static str, &'static str)],
     /// moves a term across a binder or re-binds
     pub binder_rule: bool,
     pub has_subst: bool,
 }
 
 const fn r(name: &'static str, lhs: &'static str, rhs: &'static str) -> FpRule {
-    FpRule { name, lhs, rhs, not_free: &[], binder_rule: false, has_subst: false }
+    FpRule { name, lhs, rhs, not_free: &[], or_free: &[], binder_rule: false, has_subst: false }
 }
 const fn rb(name: &'static str, lhs: &'static str, rhs: &'static str) -> FpRule {
-    FpRule { name, lhs, rhs, not_free: &[], binder_rule: true, has_subst: false }
+    FpRule { name, lhs, rhs, not_free: &[], or_free: &[], binder_rule: true, has_subst: false }
 }
 const fn rbc(name: &'static str, lhs: &'static str, rhs: &'static str, nf: &'static [(&'static str, &'static str)]) -> FpRule {
-    FpRule { name, lhs, rhs, not_free: nf, binder_rule: true, has_subst: false }
+    FpRule { name, lhs, rhs, not_free: nf, or_free: &[], binder_rule: true, has_subst: false }
 }
 const fn rbs(name: &'static str, lhs: &'static str, rhs: &'static str) -> FpRule {
-    FpRule { name, lhs, rhs, not_free: &[], binder_rule: true, has_subst: true }
+    FpRule { name, lhs, rhs, not_free: &[], or_free: &[], binder_rule: true, has_subst: true }
 }
 
 pub fn fp_rules() -> Vec<FpRule> {
@@ -51,10 +53,10 @@ pub fn fp_rules() -> Vec<FpRule> {
         rbs("sum-add-rev", "(add (sum $x ?a) (sum $y ?b))", "(sum $x (add ?a ?b[(var $y) := (var $x)]))"),
         rb("scale-in", "(mul ?c (sum $x ?b))", "(sum $x (mul ?c ?b))"),
         rbc("scale-out", "(sum $x (mul ?c ?b))", "(mul ?c (sum $x ?b))", &[("x", "c")]),
-        rbc("sum-const", "(sum $x ?c)", "0", &[("x", "c")]),
-        rb("sum-var", "(sum $x (var $x))", "0"),
+        rbc("sum-const", "(sum $x ?c)", "(add ?c ?c)", &[("x", "c")]),
+        rb("sum-var", "(sum $x (var $x))", "1"),
         rb("sum-swap", "(sum $x (sum $y ?b))", "(sum $y (sum $x ?b))"),
-        rbs("sum-shift", "(sum $x ?b)", "(sum $x ?b[(var $x) := (add (var $x) 1)])"),
+        rbs("sum-unroll", "(sum $x ?b)", "(add ?b[(var $x) := 0] ?b[(var $x) := 1])"),
         rbs("let-subst", "(let $x ?b ?e)", "?b[(var $x) := ?e]"),
         rbc("let-unused", "(let $x ?b ?e)", "?b", &[("x", "b")]),
         rb("let-var", "(let $x (var $x) ?e)", "?e"),
@@ -63,16 +65,40 @@ pub fn fp_rules() -> Vec<FpRule> {
         rb("let-neg", "(let $x (neg ?a) ?e)", "(neg (let $x ?a ?e))"),
         rb("let-sum", "(let $x (sum $y ?b) ?e)", "(sum $y (let $x ?b ?e))"),
         rb("let-intro", "(add ?a ?a)", "(let $x (add (var $x) (var $x)) ?a)"),
+        // conditions built from the library's combinators `and`, `or`, `not`
+        rbc("scale-out-xy", "(sum $x (sum $y (mul ?a ?b)))", "(mul ?a (sum $x (sum $y ?b)))", &[("x", "a"), ("y", "a")]),
+        FpRule { name: "let-add-or", lhs: "(let $x (add ?a ?b) ?e)", rhs: "(add (let $x ?a ?e) (let $x ?b ?e))", not_free: &[], or_free: &[("x", "a"), ("x", "b")], binder_rule: true, has_subst: false },
+        FpRule { name: "sum-const-notnot", lhs: "(sum $x (add ?c ?c))", rhs: "(mul 4 ?c)", not_free: &[("x", "c")], or_free: &[("x", "c"), ("x", "c")], binder_rule: true, has_subst: false },
     ]
 }
 
+type BoxCond<N> = Box<dyn Fn(&Subst, &EGraph<Fp, N>) -> bool>;
+
+/// conditions are assembled from the library's own combinators (slot_free_in, and, or, not), which are part of what is tested
 pub fn build_fp_rule<N: Analysis<Fp> + 'static>(rt: &FpRule) -> Rewrite<Fp, N> {
-    if rt.not_free.is_empty() {
-        Rewrite::new(rt.name, rt.lhs, rt.rhs)
-    } else {
-        let conds: Vec<(Slot, String)> = rt.not_free.iter().map(|(s, v)| (Slot::named(s), v.to_string())).collect();
-        Rewrite::new_if(rt.name, rt.lhs, rt.rhs, move |subst, _| conds.iter().all(|(s, v)| !subst[&**v].slots().contains(s)))
+    if rt.not_free.is_empty() && rt.or_free.is_empty() {
+        return Rewrite::new(rt.name, rt.lhs, rt.rhs);
     }
+    let mut cond: BoxCond<N> = Box::new(|_, _| true);
+    let mut first = true;
+    for (s, v) in rt.not_free {
+        let c = slot_free_in::<Fp, N>(s, v);
+        cond = if first { Box::new(c) } else { Box::new(and::<Fp, N>(cond, c)) };
+        first = false;
+    }
+    if rt.or_free.len() == 2 {
+        let (s1, v1) = rt.or_free[0];
+        let (s2, v2) = rt.or_free[1];
+        if (s1, v1) == (s2, v2) {
+            // not(not(c)) in conjunction
+            let nn = not::<Fp, N>(not::<Fp, N>(slot_free_in::<Fp, N>(s1, v1)));
+            cond = Box::new(and::<Fp, N>(cond, nn));
+        } else {
+            let o = or::<Fp, N>(slot_free_in::<Fp, N>(s1, v1), slot_free_in::<Fp, N>(s2, v2));
+            cond = if first { Box::new(o) } else { Box::new(and::<Fp, N>(cond, o)) };
+        }
+    }
+    Rewrite::new_if(rt.name, rt.lhs, rt.rhs, cond)
 }
 
 /// Model-level validation of one rule by random instantiation; Err = the rule (or the harness's
